@@ -183,6 +183,24 @@ func (fc *FnCtx) trModel(st *State, call *ast.CallExpr, fn *types.Func, recvExpr
 	case "errors.New", "fmt.Errorf":
 		args()
 		return []Val{fc.newErr(st)}, true
+	case "strconv.Itoa":
+		vs := args()
+		fc.w.needItoa = true
+		return []Val{{T: "(itoa " + vs[0].T + ")", S: SStr}}, true
+	case "strconv.FormatInt":
+		// base 10 and base 16 with a constant base: the same digit strings as %d / %x
+		vs := args()
+		if len(vs) == 2 {
+			switch vs[1].T {
+			case "10":
+				fc.w.needItoa = true
+				return []Val{{T: "(itoa " + vs[0].T + ")", S: SStr}}, true
+			case "16":
+				fc.w.needHex = true
+				return []Val{{T: "(hexs " + vs[0].T + ")", S: SStr}}, true
+			}
+		}
+		return nil, false
 	case "fmt.Sprintf":
 		vs := args()
 		if f, ok := fc.constString(call.Args[0]); ok {
